@@ -175,7 +175,9 @@ def run_scenario(sc, schedule, root):
         from twosigma.memento.storage_memory import MemoryStorageBackend
         st = MemoryStorageBackend()
     else:
-        st = FilesystemStorageBackend(path=os.path.join(root, "s"), memory_cache_mb=(None if sc["cache"] == "none" else 4))
+        # cache sizes: 4 MB (everything fits), "tiny" (smaller than any result: 64 bytes), "one" (one result at a time: 260 bytes)
+        mb = {"none": None, "tiny": 64 / 2 ** 20, "one": 260 / 2 ** 20}.get(sc["cache"], 4)
+        st = FilesystemStorageBackend(path=os.path.join(root, "s"), memory_cache_mb=mb)
     prev = m.Environment.get()
     m.Environment.set(Environment(name="c09", base_dir=root, repos=[
         ConfigurationRepository(name="r", clusters={cluster: FunctionCluster(name=cluster, storage=st)})]))
@@ -392,6 +394,10 @@ FINE_SCENARIOS = [
     # would share a content key), two keys of one function
     dict(name="fs/different-functions-equal-arguments/fine", args=[5, 105], warm=[], cache="none", backend="fs", fine=True),
     dict(name="fs/cold/different-keys/fine", args=[5, 6], warm=[], cache="none", backend="fs", fine=True),
+    # a memory cache smaller than any result (same key, cold store) and one that holds one result at a time (warm, other keys)
+    dict(name="fs+tiny-cache/cold/same-key/fine", args=[5, 5], warm=[], cache="tiny", backend="fs", fine=True),
+    dict(name="fs+one-entry-cache/warm/different-keys/fine", args=[5, 6], warm=[5, 6], cache="one", backend="fs", fine=True),
+    dict(name="fs+one-entry-cache/warm/three-threads/fine", args=[5, 6, 5], warm=[5, 6], cache="one", backend="fs", fine=True),
 ]
 
 
@@ -517,7 +523,8 @@ def main(chk, replay=None):
         nsteps = max(ref["steps"])
         seq_cache = ref["cache"]
         nested = any(x >= 200 for x in sc["args"])
-        scheds = schedules_single_preemption(nsteps, len(sc["args"]), stride=((11 if nested else 4) if quick else 1))
+        stride_q = 11 if nested else (1 if sc["name"] == "cold-store-same-key" else 4)      # every point where two first callers of one call can meet
+        scheds = schedules_single_preemption(nsteps, len(sc["args"]), stride=(stride_q if quick else 1))
         scheds += [random_schedule(rng, len(sc["args"]), nsteps, rng.randint(2, 6)) for _ in range((8 if nested else 12) if quick else 150)]
         for sch in scheds:
             root = tempfile.mkdtemp(prefix="c09_", dir=chk.tmpdir())
@@ -548,7 +555,7 @@ def main(chk, replay=None):
         ref = run_scenario(sc, [(i, 10 ** 6) for i in range(len(sc["args"]))], root)
         shutil.rmtree(root, ignore_errors=True)
         nsteps = max(ref["steps"])
-        scheds = schedules_single_preemption(nsteps, len(sc["args"]), stride=(3 if quick else 1))
+        scheds = schedules_single_preemption(nsteps, len(sc["args"]), stride=((5 if sc.get("backend") == "fs" else 3) if quick else 1))
         scheds += [random_schedule(rng, len(sc["args"]), nsteps, rng.randint(2, 6)) for _ in range(8 if quick else 150)]
         for sch in scheds:
             root = tempfile.mkdtemp(prefix="c09_", dir=chk.tmpdir())
